@@ -6,8 +6,8 @@ CONSTANTS
   Vals = {1}
   FVals = {0, 2}
   SVals = {0, 1, 2}
-  VecIdx = {0, 1}
-  MaxPend = 2
+  VecIdx = {1}
+  MaxPend = 1
   Mode = "field"
 VIEW StoreView
 ACTION_CONSTRAINT EmitEdge
